@@ -423,10 +423,14 @@ class World:
                 out[p.name] = self.fdig.get((c, dg), -1)
         return out
 
-    def read(self, ftype, d, mesh_only=False):
+    def read(self, ftype, d, mesh_only=False, read_npy=True, save=True):
         Flags.loaded = Flags.parsed = False
         try:
-            fd = FEMData.read_directory(ftype, d, read_mesh_only=bool(mesh_only))
+            kw = {}
+            if not (read_npy and save):
+                # the options are only spelled out when they differ from the defaults
+                kw = {'read_npy': bool(read_npy), 'save': bool(save)}
+            fd = FEMData.read_directory(ftype, d, read_mesh_only=bool(mesh_only), **kw)
         except Exception as e:
             kind = 'LE' if Flags.loaded and not Flags.parsed else 'PE'
             return [kind, type(e).__name__ + ': ' + str(e)[:120]]
@@ -438,6 +442,8 @@ class World:
         k = op[0]
         if k == 'R':
             return self.read(ftype, d, op[1])
+        if k == 'RF':       # read_directory(read_mesh_only=op[1], read_npy=op[2], save=op[3])
+            return self.read(ftype, d, op[1], op[2], op[3])
         if k == 'S':
             self.objects[op[1]].save(d, save_mesh_only=bool(op[2]))
             return ['N']
@@ -473,6 +479,8 @@ class World:
                 install_crash(op[-1])
                 if op[0] == 'RC':
                     res = self.read(ftype, d, op[1])
+                elif op[0] == 'RFC':
+                    res = self.read(ftype, d, op[1], op[2], op[3])
                 else:
                     self.objects[op[1]].save(d, save_mesh_only=bool(op[2]))
                     res = ['N']
@@ -486,7 +494,7 @@ class World:
         _, status = os.waitpid(pid, 0)
         code = os.waitstatus_to_exitcode(status)
         if code == 17:
-            return (['P', None] if op[0] == 'RC' else ['N']), True
+            return (['P', None] if op[0] in ('RC', 'RFC') else ['N']), True
         r = json.loads(open(resfile).read())
         return r['res'], False
 
@@ -503,7 +511,7 @@ class World:
         for op in h['ops']:
             died = False
             try:
-                if op[0] in ('RC', 'SC'):
+                if op[0] in ('RC', 'SC', 'RFC'):
                     res, died = self.run_crash_op(op, src['ftype'], d, resfile)
                 elif op[0] in ('SX', 'SXM', 'RX'):
                     res, died = self.run_fault_op(op, src['ftype'], d)
@@ -729,6 +737,7 @@ def main():
     out['snaps'] = w.snaps
     out['classes'] = {m: type(getattr(w.objects[0], m)).__name__ for m in COMPS}
     out['histories'] = [w.history(h) for h in spec.get('histories', [])]
+    out['fhistories'] = [w.history(h) for h in spec.get('fhistories', [])]
     out['roundtrips'] = w.roundtrips(spec.get('roundtrips', []))
     out['keycases'] = [keycase(kc) for kc in spec.get('keycases', [])]
     out['twice'] = [twice(w, tw) for tw in spec.get('twice', [])]
